@@ -255,15 +255,22 @@ func runC01(c *Ctx) {
 	if c.From != nil {
 		for _, cs := range c.From {
 			t := strings.Fields(cs[0])
+			if t[0] == "pathfn" {
+				pathfnCase(c, t[1], unhx(t[2]))
+				continue
+			}
 			// corpus cases are treated as well-formed (the OS oracle runs); perms not compared
 			c01Case(c, t[1], cs[1:len(cs)-1], !strings.HasPrefix(t[1], "mal"), map[string]bool{})
 		}
 		return
 	}
 	nWF, nMal := 600, 300
+	pfLen := 6
 	if c.Tier == "thorough" {
 		nWF, nMal = 20000, 8000
+		pfLen = 8
 	}
+	runPathfn(c, pfLen)
 	for i := 0; i < nWF; i++ {
 		items, wf, ex := genC01(c.Rng.Fork(), c.Rng.Range(3, 30), 0)
 		c01Case(c, fmt.Sprintf("w%d", i), items, wf, ex)
